@@ -9,7 +9,7 @@ from hypothesis import strategies as st
 
 from . import cards, env, gen
 
-MODELS = ["default", "extended", "cfit", "cfit_cached", "cfit_extended", "cached_int", "cached_amp", "simple", "simple_clip"]
+MODELS = ["default", "extended", "cfit", "cfit_cached", "cfit_extended", "cached_int", "cached_amp", "simple", "simple_clip", "constr_frac"]
 
 
 def data_options(model, case):
@@ -34,6 +34,9 @@ def data_options(model, case):
         d["cached_amp"] = True
     elif model in ("simple", "simple_clip"):
         d["model"] = model
+    elif model == "constr_frac":
+        d["model"] = "constr_frac"
+        d["constr_frac"] = {"c0": {"res": [case["_res0"]], "value": case["frac_value"], "sigma": case["frac_sigma"]}}
     return d
 
 
@@ -45,13 +48,19 @@ class NllCase:
         model = case["model"]
         self.model = model
         spec = dict(spec)
+        sfx = env.uniq()
+        if model == "constr_frac":
+            ch0 = spec["chains"][0]
+            k0 = sorted(ch0["res"], key=len)[0]
+            case = dict(case, _res0=gen.res_name(k0, ch0["res"][k0].get("id", 0), sfx), frac_value=case.get("frac_value", 0.3), frac_sigma=case.get("frac_sigma", 0.1))
+            self.case = case
         spec["data"] = data_options(model, case)
         if float_shape and spec["chains"]:
             # float mass and width of the first resonance (not for cached integrals)
             ch0 = spec["chains"][0]
             k0 = sorted(ch0["res"])[0]
             ch0["res"][k0] = dict(ch0["res"][k0], float="mg")
-        cfg, nm = gen.build(spec)
+        cfg, nm = gen.build(spec, sfx=sfx)
         self.nm = nm
         self.config = cards.load(cfg)
         self.amp = amp = self.config.get_amplitude()
@@ -106,6 +115,13 @@ class NllCase:
         # Gaussian constraints on free parameters
         self.gauss = {}
         tv = sorted(amp.vm.trainable_vars)
+        if case.get("gauss_fixed"):
+            # a constraint on a FIXED parameter, listed before the others (e.g.
+            # gauss_constr on a mass that is kept fixed)
+            fixed = sorted(n for n in amp.get_params() if n not in amp.vm.trainable_vars)
+            if fixed:
+                n = fixed[case["seed"] % len(fixed)]
+                self.gauss[n] = (float(amp.get_params()[n]) + 0.3, 0.2)
         for idx, off, sigma in case.get("gauss", []):
             if tv:
                 n = tv[idx % len(tv)]
@@ -175,6 +191,18 @@ class NllCase:
                     nll = -alpha * (np.sum(w * np.log(f)) - w.sum() * np.log(I))
                 info["min_density"] = float(np.min(f))
                 info["alpha"] = float(alpha)
+                if model == "constr_frac":
+                    # fraction of the constrained resonance from the per-chain amplitude tensors
+                    dg = amp.decay_group
+                    old_idx = list(dg.chains_idx)
+                    want = self.case["_res0"]
+                    sel = [k for k, ch in enumerate(dg.chains) if any(str(r) == want for r in ch.inner)]
+                    dg.set_used_chains(sel)
+                    t = np.asarray(dg.get_amp3(s["phsp"]))
+                    dg.set_used_chains(old_idx)
+                    f_res = np.sum(np.abs(t) ** 2, axis=tuple(range(1, t.ndim)))
+                    frac = np.sum(wp * f_res) / np.sum(wp * fp)
+                    nll += 0.5 * ((frac - self.case["frac_value"]) / self.case["frac_sigma"]) ** 2
             tot += nll
         pr = amp.get_params()
         for n, (mu, sig) in self.gauss.items():
@@ -201,5 +229,8 @@ def case_strategy(models=None, nmax=(80, 30, 200), float_ok=True, spec=None):
             "batch": st.sampled_from([7, 13, 65000]),
             "n_sets": st.sampled_from([1, 1, 2]),
             "seed": st.integers(0, 2**31 - 1),
+            "gauss_fixed": st.booleans(),
+            "frac_value": st.floats(0.1, 0.8),
+            "frac_sigma": st.floats(0.05, 0.5),
         }
     )
